@@ -97,12 +97,19 @@ class Rig:
     The daemon side runs in its own thread (own thread-local call context), strictly alternating
     with the client: it handles exactly one request each time the client waits for a reply."""
 
-    def __init__(self, ser, oneway_twin=False):
+    def __init__(self, ser, oneway_twin=False, annotated=False):
         from Pyro5 import server, client
         self.ser = ser
+        self.annotated = annotated
         self.csock, self.ssock = MemSock("client"), MemSock("server")
         self.csock.peer, self.ssock.peer = self.ssock, self.csock
-        self.daemon = server.Daemon(connected_socket=self.ssock)
+        if annotated:
+            class AnnotatingDaemon(server.Daemon):      # the documented way to add annotations to every response
+                def annotations(self):
+                    return {"RIGS": b"from-the-daemon"}
+            self.daemon = AnnotatingDaemon(connected_socket=self.ssock)
+        else:
+            self.daemon = server.Daemon(connected_socket=self.ssock)
         self.echo = _echo_class(oneway_twin)()
         self.daemon.register(self.echo, "echo")
         self.conn = self.daemon.transportServer.conn
@@ -129,6 +136,24 @@ class Rig:
         self.req.put(1)
         self.done.get()
 
+    def client_annotations(self):
+        """context: the calling thread's current_context.annotations as an annotating client sets them"""
+        return _ClientAnnotations({"RIGC": b"from-the-client"} if self.annotated else None)
+
+    def lose_connection(self):
+        """the connection goes away between two messages and the client makes a new one to the same daemon: the daemon is told
+        what its transport servers tell it when a connection closes (_clientDisconnect), then both ends get a fresh socket pair
+        (this transport has no handshake).  Nothing is in flight: every earlier reply has been received completely."""
+        from Pyro5 import socketutil
+        assert not self.csock.buf and not self.ssock.buf
+        self.daemon._clientDisconnect(self.conn)
+        self.csock.on_empty = None
+        self.csock, self.ssock = MemSock("client"), MemSock("server")
+        self.csock.peer, self.ssock.peer = self.ssock, self.csock
+        self.conn = socketutil.SocketConnection(self.ssock)
+        self.csock.on_empty = self._pump
+        self.proxy._pyroConnection = socketutil.SocketConnection(self.csock, "echo", True)
+
     def close(self):
         self.req.put(None)
         self.thread.join()
@@ -140,20 +165,36 @@ class Rig:
             pass
 
 
+class _ClientAnnotations:
+    def __init__(self, ann):
+        self.ann = ann
+
+    def __enter__(self):
+        from Pyro5 import callcontext
+        self.old = callcontext.current_context.annotations
+        if self.ann is not None:
+            callcontext.current_context.annotations = dict(self.ann)
+
+    def __exit__(self, *a):
+        from Pyro5 import callcontext
+        callcontext.current_context.annotations = self.old
+
+
 class Rigs:
     """History of every set of rigs: first a daemon serves (and a proxy connects to) the all-@oneway twin of the Echo class —
     another class with the same qualified name — and goes away; then the normal Echo classes are served.  What a call on
     the normal object returns must not depend on that (or any) earlier class."""
 
-    def __init__(self):
+    def __init__(self, annotated=False):
         self.rigs = {}
+        self.annotated = annotated
         twin = Rig("serpent", oneway_twin=True)      # connecting fetches the twin's metadata
         twin.close()
 
     def get(self, ser):
         r = self.rigs.get(ser)
         if r is None:
-            r = self.rigs[ser] = Rig(ser)
+            r = self.rigs[ser] = Rig(ser, annotated=self.annotated)
         return r
 
     def drop(self, ser):
@@ -171,40 +212,45 @@ def _kind(x):
     return c01.err_kind(x)
 
 
+def _deliver_raw(rig, pos, v):
+    from Pyro5 import client
+    e, p = rig.echo, rig.proxy
+    if pos in ("arg", "kwarg", "nested-arg"):
+        if pos == "arg":
+            p.recv(v)
+        elif pos == "kwarg":
+            p.recv(k=v)
+        else:
+            p.recv([v])
+        if e.seen is None:
+            raise LookupError("the proxy call returned before the server method had run (treated as a oneway call)")
+        return e.seen[0][0] if pos == "arg" else (e.seen[1]["k"] if pos == "kwarg" else e.seen[0][0][0])
+    if pos == "result":
+        e.store = v
+        return p.ret()
+    if pos == "nested-result":
+        e.store = [v]
+        return p.ret()[0]
+    if pos == "batch-result":
+        e.store = v
+        b = client.BatchProxy(p)
+        b.ret()
+        return list(b())[0]
+    if pos == "stream-item":
+        e.store = [v]
+        return list(p.stream())[0]
+    raise AssertionError(pos)
+
+
 def deliver(rigs, ser, pos, v, loose=False):
     """send `v` through position `pos`; -> (('ok', normalised tree) | ('err', kind), raw value, exception)"""
-    from Pyro5 import client
     rig = rigs.get(ser)
-    e, p = rig.echo, rig.proxy
-    e.seen, e.store = None, None
+    rig.echo.seen, rig.echo.store = None, None
     try:
-        if pos in ("arg", "kwarg", "nested-arg"):
-            if pos == "arg":
-                p.recv(v)
-            elif pos == "kwarg":
-                p.recv(k=v)
-            else:
-                p.recv([v])
-            if e.seen is None:
-                raise LookupError("the proxy call returned before the server method had run (treated as a oneway call)")
-            got = e.seen[0][0] if pos == "arg" else (e.seen[1]["k"] if pos == "kwarg" else e.seen[0][0][0])
-        elif pos == "result":
-            e.store = v
-            got = p.ret()
-        elif pos == "nested-result":
-            e.store = [v]
-            got = p.ret()[0]
-        elif pos == "batch-result":
-            e.store = v
-            b = client.BatchProxy(p)
-            b.ret()
-            got = list(b())[0]
-        elif pos == "stream-item":
-            e.store = [v]
-            got = list(p.stream())[0]
-        else:
-            raise AssertionError(pos)
+        with rig.client_annotations():
+            got = _deliver_raw(rig, pos, v)
     except RecursionError:
+        rigs.drop(ser)
         raise
     except Exception as x:
         rigs.drop(ser)             # the proxy may have released its connection
@@ -357,6 +403,18 @@ def check_value(ctx, ser, v, tr=None, cfg=None):
     case = _case(ser, tr) if not python_only else {"serializer": ser, "python_value": repr(v)}
     if cfg:
         case["config"] = cfg
+    # the protocol layer hands the serializer bytes, a bytearray, or (messages with annotations) a memoryview of the same payload:
+    # what arrives must not depend on which
+    arg1, _ = c01.outcome(lambda: s.loadsCall(s.dumpsCall("o", "m", (v,), {"k": v}))[2:], True)
+    for wrap in (bytearray, memoryview):
+        res2, _ = c01.outcome(lambda: s.loads(wrap(s.dumps(v))), True)
+        arg2, _ = c01.outcome(lambda: s.loadsCall(wrap(s.dumpsCall("o", "m", (v,), {"k": v})))[2:], True)
+        if res2 != res or arg2 != arg1:
+            ctx.fail("payload-type-dependent-%s" % ser,
+                     "%s: the same payload decodes differently when it is handed over as %s instead of bytes: result %s vs %s, "
+                     "arguments %s vs %s" % (ser, wrap.__name__, repr(res2)[:160], repr(res)[:160], repr(arg2)[:160], repr(arg1)[:160]),
+                     dict(case, payload_type=wrap.__name__))
+            return
     for name, got in (("positional", arg), ("keyword", kw)):
         if got != res:
             if ser == "msgpack" and res[0] == "ok" and _has_ext(res[1]) and not (got[0] == "ok" and _has_ext(got[1])):
@@ -414,6 +472,16 @@ def serializer_oracle(ctx):
         tr = V.tree(v)
         for ser in SERS:
             check_value(ctx, ser, v, tr)
+    # deeply nested values (the recursive generators stop at depth 6): every clause again at nesting depths up to 180
+    for i in range(ctx.n(120, 1500)):
+        v, depth = V.gen_deep(rng, lossless=rng.random() < 0.7)
+        tr = V.tree(v)
+        for ser in SERS:
+            try:
+                check_value(ctx, ser, v, tr)
+                ctx.count("oracle:deep:%d+" % (depth // 50 * 50))
+            except RecursionError:
+                ctx.count("oracle:deep:recursion-skipped")
     # configurations: the same clauses under the non-default run-time setting of every config item the serializers read
     # (SERPENT_BYTES_REPR: serpent then writes bytes as bytes literals instead of base64 dicts)
     cfg = {"SERPENT_BYTES_REPR": True}
@@ -448,7 +516,47 @@ def e2e_oracle(ctx):
                     _e2e_check(ctx, rigs, "serpent", comp, v, {"SERPENT_BYTES_REPR": True})
     finally:
         rigs.close()
+    # configurations: messages that carry annotations in both directions (the client's current_context.annotations, a
+    # Daemon.annotations() override) - the protocol layer then hands the payload over as a slice of a memoryview
+    rng = ctx.sub_rng("e2e-annotated-search" if ctx.search_mode else "e2e-annotated")
+    deep = _deep_values(rng, ctx.n(6, 40))
+    rigs = Rigs(annotated=True)
+    try:
+        for comp in (False, True):
+            with _Config(COMPRESSION=comp, ITER_STREAMING=True, SERIALIZER="serpent"):
+                for ser in SERS:
+                    for v in vals[:len(c01._corpus_values()) + ctx.n(30, 200)] + _sized_values(ser)[::5] + deep[:ctx.n(2, 10)]:
+                        if not _e2e_check_guarded(ctx, rigs, ser, comp, v, None, True):
+                            return
+    finally:
+        rigs.close()
+    # deeply nested values through every position
+    rigs = Rigs()
+    try:
+        for comp in (False, True):
+            with _Config(COMPRESSION=comp, ITER_STREAMING=True, SERIALIZER="serpent"):
+                for ser in SERS:
+                    for v in deep:
+                        if not _e2e_check_guarded(ctx, rigs, ser, comp, v):
+                            return
+    finally:
+        rigs.close()
     _stream_histories(ctx)
+
+
+def _deep_values(rng, n):
+    return [V.gen_deep(rng, lossless=rng.random() < 0.7)[0] for _ in range(n)]
+
+
+def _e2e_check_guarded(ctx, rigs, ser, comp, v, cfg=None, annotated=False):
+    """_e2e_check; a value too deep for this interpreter's stack is skipped (RecursionError is not a verdict). False: stop (a failure was reported)"""
+    n = len(ctx.failures)
+    try:
+        _e2e_check(ctx, rigs, ser, comp, v, cfg, annotated)
+    except RecursionError:
+        ctx.count("e2e:recursion-skipped")
+        rigs.drop(ser)
+    return len(ctx.failures) == n
 
 
 def _stream_histories(ctx):
@@ -462,9 +570,17 @@ def _stream_histories(ctx):
                         with _Config(COMPRESSION=comp, ITER_STREAMING=True):
                             if not stream_without_proxy_holder(ctx, ser, comp, items, drop_after):
                                 return
+            # connection losses between two item fetches (before the first, in the middle, before the end-of-stream fetch,
+            # several in a row); the stream lingers (ITER_STREAM_LINGER > 0) and is picked up again on the new connection
+            for _ in range(ctx.n(4, 24)):
+                items = [V.gen_lossless(rng, rng.choice([0, 1, 2])) if rng.random() < 0.8 else V.gen_value(rng, 1)
+                         for _ in range(rng.choice([1, 2, 3, 5, 8]))]
+                losses = sorted(rng.randint(0, len(items)) for _ in range(rng.choice([1, 1, 2, 3])))
+                if not stream_with_connection_loss(ctx, ser, comp, items, losses, rng.random() < 0.3):
+                    return
 
 
-def _e2e_check(ctx, rigs, ser, comp, v, cfg=None):
+def _e2e_check(ctx, rigs, ser, comp, v, cfg=None, annotated=False):
     tr = V.tree(v)
     want = ("ok", V.norm(tr, True))
     lossless = V.is_lossless(tr)
@@ -474,6 +590,8 @@ def _e2e_check(ctx, rigs, ser, comp, v, cfg=None):
         ctx.evaluations += 1
         obs[pos] = out
         case = _case(ser, tr, position=pos, compression=comp, **({"config": cfg} if cfg else {}))
+        if annotated:
+            case["annotated"] = True
         if exc is not None and ser == "marshal" and isinstance(exc, AttributeError) and "items" in str(exc) and pos == "batch-result":
             ctx.fail("marshal-kwargs-none", "marshal: a batch call fails on the client with %r (dumpsCall is given kwargs=None)" % exc, case)
             obs[pos] = None
@@ -495,7 +613,8 @@ def _e2e_check(ctx, rigs, ser, comp, v, cfg=None):
                 sig = "marshal-list-arg-unconverted"
             ctx.fail(sig, "%s, compression %s: position %s delivers %s but position %s delivers %s"
                      % (ser, "on" if comp else "off", a, repr(obs[a])[:160], b, repr(obs[b])[:160]),
-                     _case(ser, tr, position=a + "/" + b, compression=comp, **({"config": cfg} if cfg else {})))
+                     _case(ser, tr, position=a + "/" + b, compression=comp, **({"config": cfg} if cfg else {}),
+                           **({"annotated": True} if annotated else {})))
             return
 
 
@@ -536,6 +655,49 @@ def stream_without_proxy_holder(ctx, ser, comp, items, drop_after):
     return True
 
 
+def stream_with_connection_loss(ctx, ser, comp, items, losses, annotated=False):
+    """position stream-item, histories with connection losses: `losses` = how many items had been received (completely) when
+    the connection went away, one entry per loss.  With ITER_STREAM_LINGER > 0 the stream stays; consumed on through the new
+    connection it must deliver every item the method yields exactly once, in order, as the uninterrupted stream does."""
+    from props import c01
+    case = {"stream_connection_loss": True, "serializer": ser, "compression": comp, "losses": list(losses), "annotated": annotated,
+            "value_tokens": " ".join(V.tokens(V.tree(items)))}
+
+    def consume(loss_points):
+        rig = Rig(ser, annotated=annotated)
+        try:
+            with _Config(COMPRESSION=comp, ITER_STREAMING=True, ITER_STREAM_LINGER=30.0), rig.client_annotations():
+                rig.echo.store = items
+                it = rig.proxy.stream()
+                got = []
+                pending = list(loss_points)
+                try:
+                    while True:
+                        while pending and pending[0] <= len(got):
+                            pending.pop(0)
+                            rig.lose_connection()
+                        try:
+                            got.append(next(it))
+                        except StopIteration:
+                            break
+                    return [c01.outcome(lambda x=x: x, True)[0] for x in got]
+                except Exception as x:
+                    return ("err", _kind(x), len(got))
+        finally:
+            rig.close()
+    plain = consume([])
+    broken = consume(losses)
+    ctx.evaluations += 1
+    ctx.nontriv(("stream-loss", ser, comp, tuple(losses), case["value_tokens"]))
+    if broken != plain:
+        ctx.fail("stream-resumed-items-%s" % ser,
+                 "%s, compression %s: a result stream whose connection was lost after %s received item(s) and that was picked up "
+                 "again on a new connection (ITER_STREAM_LINGER) delivers %s but the uninterrupted stream delivers %s"
+                 % (ser, "on" if comp else "off", list(losses), repr(broken)[:300], repr(plain)[:300]), case)
+        return False
+    return True
+
+
 def replay_case(c):
     """re-run a failing input on the real code; 1 if it still fails"""
     ser = c.get("serializer")
@@ -547,13 +709,15 @@ def replay_case(c):
     ctx = common.Ctx("C01", "quick", 0)
     cfg = c.get("config") or {}
     print("value:", repr(v)[:500], " serializer:", ser, " config:", cfg)
-    if c.get("stream_holder_only"):
+    if c.get("stream_connection_loss"):
+        stream_with_connection_loss(ctx, ser, bool(c.get("compression")), v, c.get("losses") or [], bool(c.get("annotated")))
+    elif c.get("stream_holder_only"):
         stream_without_proxy_holder(ctx, ser, bool(c.get("compression")), v, int(c.get("drop_after", 0)))
     elif "position" in c:
-        rigs = Rigs()
+        rigs = Rigs(annotated=bool(c.get("annotated")))
         try:
             with _Config(COMPRESSION=bool(c.get("compression")), ITER_STREAMING=True, **cfg):
-                _e2e_check(ctx, rigs, ser, bool(c.get("compression")), v, cfg or None)
+                _e2e_check(ctx, rigs, ser, bool(c.get("compression")), v, cfg or None, bool(c.get("annotated")))
         finally:
             rigs.close()
     else:
